@@ -13,7 +13,7 @@ pub struct ClsCase {
     pub f72: Vec<String>,
     pub t108: Option<String>,
     pub t119: Option<String>,
-    /// MT202 only: "", "cover" (50a + 59a in sequence B), "other" (52A only)
+    /// MT202 only: "", "cover" (50a + 59a in sequence B), "cover-50-only", "cover-59-only", "other" (52A only)
     pub seq_b: String,
     /// description of the atoms used (for signatures)
     pub atoms: String,
@@ -183,6 +183,8 @@ pub fn body_with_72(mt: &str, f72: &[String], seq_b: &str) -> String {
                 fields.push(("50K".into(), "/ACC\nORDERING CUSTOMER".into()));
                 fields.push(("59".into(), "/ACC\nBENEFICIARY".into()));
             }
+            "cover-50-only" => fields.push(("50K".into(), "/ACC\nORDERING CUSTOMER".into())),
+            "cover-59-only" => fields.push(("59".into(), "/ACC\nBENEFICIARY".into())),
             "other" => fields.push(("52A".into(), "DEUTDEFF".into())),
             _ => {}
         }
@@ -239,6 +241,9 @@ pub fn enumerate(mt: &str, thorough: bool) -> Vec<ClsCase> {
         Some("myretnref"),
         Some("Pay-Rejt-0001"),
         Some("x/Retn/77"),
+        // the documented maximum length of tag 108 (16x)
+        Some("REJT000000000001"),
+        Some("PAYMENT00001RETN"),
         Some("REJT"),
         Some("RETN"),
     ];
@@ -251,7 +256,7 @@ pub fn enumerate(mt: &str, thorough: bool) -> Vec<ClsCase> {
         Some("RETN"),
     ];
     let seqs: Vec<&str> = if mt == "202" {
-        vec!["", "cover", "other"]
+        vec!["", "cover", "cover-50-only", "cover-59-only", "other"]
     } else {
         vec![""]
     };
@@ -376,6 +381,17 @@ pub fn oracle(c: &ClsCase, obs: &mut Obs) -> Vec<Violation> {
     } else {
         obs.excluded("absolute-verdict:ambiguous-code-word");
     }
+    // (ii-b) cover: an MT202 is a cover message when its sequence B carries an ordering or a beneficiary
+    // customer (is_cover_message: "Sequence B is present with COV fields")
+    if c.mt == "202" {
+        let exp_cover = matches!(c.seq_b.as_str(), "cover" | "cover-50-only" | "cover-59-only");
+        if o.cover != exp_cover {
+            out.push(viol(
+                format!("C17|MT202|cover|expected-{}|{}", exp_cover, if c.seq_b.is_empty() { "none" } else { c.seq_b.as_str() }),
+                format!("is_cover_message()={} for {}", o.cover, c.text()),
+            ));
+        }
+    }
     // (iii) plugin method is the one the predicates imply
     let implied = if o.reject {
         "reject"
@@ -399,7 +415,7 @@ pub fn oracle(c: &ClsCase, obs: &mut Obs) -> Vec<Violation> {
 use crate::driver::Obs as _ObsAlias;
 
 pub fn run(ctx: &Ctx) {
-    ctx.add_rule("enumerated product for MT103, MT202, MT205: field 72 (absent / neutral / each of 13 code-word atoms incl. look-alikes and lower case at line start, mid-line, second line / pairs of atoms) x tag 108 (10 values: none, plain, code word upper / lower / mixed case, bare and embedded) x tag 119 (6 values) x MT202 sequence B (absent, cover, other); control types without classification; non-trivial = carries at least one code word; distinct by text");
+    ctx.add_rule("enumerated product for MT103, MT202, MT205: field 72 (absent / neutral / each of 13 code-word atoms incl. look-alikes and lower case at line start, mid-line, second line / pairs of atoms) x tag 108 (12 values, two of them 16 characters long: none, plain, code word upper / lower / mixed case, bare and embedded) x tag 119 (6 values) x MT202 sequence B (absent, 50a+59a, 50a only, 59a only, 52A only); control types without classification; non-trivial = carries at least one code word; distinct by text");
     ctx.exhaustive("the whole product is enumerated");
     ctx.assume("absolute verdict only where the code word is unambiguous (exact /REJT/ or /RETN/ in 72, REJT/RETN in 108 in any letter case - the predicates fold the user reference to upper case, src/swift_message.rs has_reject_codes/has_return_codes -, no look-alike anywhere); consistency across types and plugin method are judged on all inputs");
     let thorough = !ctx.quick();
